@@ -27,6 +27,7 @@ type memIt struct {
 	buf    []byte
 	n      int
 	cached bool
+	failNext bool // the next read that reaches the source fails with errInjected
 }
 
 func (m *memIt) cnt() int64 { return int64(len(m.recs)) }
@@ -45,9 +46,19 @@ func (m *memIt) setPos(p int64) {
 	m.cached = false
 }
 
+// errInjected is the read error a scripted source answers once when it is armed
+var errInjected = fmt.Errorf("verif: injected read error")
+
 func (m *memIt) Get(ctx context.Context) (records.Record, error) {
 	if m.cached {
 		return m.buf[:m.n], nil
+	}
+	if m.failNext { // a read that fails (not EOF): the source stays where it is
+		m.failNext = false
+		return nil, errInjected
+	}
+	if err := ctx.Err(); err != nil { // a source that honours its context
+		return nil, err
 	}
 	if m.bkwd {
 		if m.pos >= m.cnt() {
